@@ -1,6 +1,7 @@
 (* C17 property theorems.  Statements + exact + Print Assumptions only. *)
 From ZV.Common Require Import Base.
 From ZV.C17 Require Import Spec Model ProofsSpec ProofsPage ProofsLinks ProofsLru ProofsRefine ProofsShard ProofsStamp ProofsStale ProofsTop.
+From ZV.C17 Require Import ModelInval ProofsInval ProofsFresh.
 Open Scope N_scope.
 
 (* ---- S: the recency-list LRU map never exceeds its capacity, for every history ---- *)
@@ -191,3 +192,132 @@ Check cached_get_is_inner_get : forall c vfid meta data,
   coherent c -> files c vfid = None ->
   snd (cached_get c vfid meta data) = data /\ coherent (fst (cached_get c vfid meta data)).
 Print Assumptions cached_get_is_inner_get.
+
+(* ====================================================================================================== *)
+(* extension: invalidation of the page cache, external rewrites, close_file, SingleLruPageCache          *)
+(* ====================================================================================================== *)
+
+(* ---- LruPageCache::invalidate_range(f, off, len) with the page arithmetic as written (first page off / PAGE,
+        last page (off + len).saturating_sub(1) / PAGE): every page it visits is gone from the page table and is
+        marked invalidated; every other page (other file, or not visited) keeps its entry and its mark; for a
+        non-empty range the visited pages are exactly the pages holding a byte of [off, off+len); for an empty
+        range at most the page of `off` is dropped ---- *)
+Theorem invalidate_range_covers : forall c fid off len,
+  0 < psize c ->
+  let c' := pc_invalidate_range c fid off len in
+  (forall p, visited (psize c) off len p ->
+     plookup (fid, p) (inner c') = None /\ pmem (fid, p) (inval c') = true) /\
+  (forall k, ~ (fst k = fid /\ visited (psize c) off len (snd k)) ->
+     plookup k (inner c') = plookup k (inner c) /\ pmem k (inval c') = pmem k (inval c)) /\
+  (0 < len -> forall p, visited (psize c) off len p <-> intersects (psize c) off len p) /\
+  (len = 0 -> forall p, visited (psize c) off len p -> p = off / psize c) /\
+  psize c' = psize c /\ files c' = files c.
+Proof. exact invalidate_range_covers_proof. Qed.
+Check invalidate_range_covers : forall c fid off len,
+  0 < psize c ->
+  let c' := pc_invalidate_range c fid off len in
+  (forall p, visited (psize c) off len p ->
+     plookup (fid, p) (inner c') = None /\ pmem (fid, p) (inval c') = true) /\
+  (forall k, ~ (fst k = fid /\ visited (psize c) off len (snd k)) ->
+     plookup k (inner c') = plookup k (inner c) /\ pmem k (inval c') = pmem k (inval c)) /\
+  (0 < len -> forall p, visited (psize c) off len p <-> intersects (psize c) off len p) /\
+  (len = 0 -> forall p, visited (psize c) off len p -> p = off / psize c) /\
+  psize c' = psize c /\ files c' = files c.
+Print Assumptions invalidate_range_covers.
+(* page size 4, a 12-byte file with all three pages resident: invalidate_range(3, 2) straddles the first boundary *)
+Example invalidate_range_covers_nontrivial :
+  let fs := fun g => if g =? 1 then Some [1; 2; 3; 4; 5; 6; 7; 8; 9; 10; 11; 12] else None in
+  let c := fst (pc_read (pc_new 4 64 fs) 1 0 12) in
+  let c' := pc_invalidate_range c 1 3 2 in
+  map fst (inner c) = [(1, 2); (1, 1); (1, 0)] /\ map fst (inner c') = [(1, 2)] /\
+  intersects 4 3 2 0 /\ intersects 4 3 2 1 /\ ~ intersects 4 3 2 2.
+Proof. vm_compute. repeat split; try reflexivity; try discriminate. intros [_ H]. discriminate. Qed.
+
+(* ---- LruPageCache::close_file(f): no page of f stays cached or marked, the pages and marks of every other file
+        are untouched, f has no file entry afterwards; Err exactly when f had none before ---- *)
+Theorem invalidate_file_covers : forall c fid,
+  let c' := fst (pc_close_file c fid) in
+  (forall p, plookup (fid, p) (inner c') = None /\ pmem (fid, p) (inval c') = false) /\
+  (forall k, fst k <> fid ->
+     plookup k (inner c') = plookup k (inner c) /\ pmem k (inval c') = pmem k (inval c)) /\
+  files c' fid = None /\ (forall g, g <> fid -> files c' g = files c g) /\
+  psize c' = psize c /\
+  snd (pc_close_file c fid) = match files c fid with Some _ => true | None => false end.
+Proof. exact invalidate_file_covers_proof. Qed.
+Check invalidate_file_covers : forall c fid,
+  let c' := fst (pc_close_file c fid) in
+  (forall p, plookup (fid, p) (inner c') = None /\ pmem (fid, p) (inval c') = false) /\
+  (forall k, fst k <> fid ->
+     plookup k (inner c') = plookup k (inner c) /\ pmem k (inval c') = pmem k (inval c)) /\
+  files c' fid = None /\ (forall g, g <> fid -> files c' g = files c g) /\
+  psize c' = psize c /\
+  snd (pc_close_file c fid) = match files c fid with Some _ => true | None => false end.
+Print Assumptions invalidate_file_covers.
+
+(* ---- read / read_with_prefetch / prefetch / invalidate_page / invalidate_range / close_file histories in which
+        the file is also rewritten in place by somebody else (XWrite: no cache call at all).  `stale_step` keeps
+        the ghost list of pages that were rewritten and not invalidated since; every read that visits no such
+        page returns the file's current bytes (an unknown or closed file id: no bytes) ---- *)
+Theorem read_after_write_is_fresh : forall ps capbytes fs ops,
+  0 < ps -> xops_ok fs ops -> x_fresh (pc_new ps capbytes fs) [] ops.
+Proof. exact read_after_write_proof. Qed.
+Check read_after_write_is_fresh : forall ps capbytes fs ops,
+  0 < ps -> xops_ok fs ops -> x_fresh (pc_new ps capbytes fs) [] ops.
+Print Assumptions read_after_write_is_fresh.
+(* the same from any state whose non-stale pages are right *)
+Theorem read_after_write_is_fresh_from : forall ops c D,
+  0 < psize c -> stale_ok c D -> xops_ok (files c) ops -> x_fresh c D ops.
+Proof. exact x_fresh_proof. Qed.
+Check read_after_write_is_fresh_from : forall ops c D,
+  0 < psize c -> stale_ok c D -> xops_ok (files c) ops -> x_fresh c D ops.
+Print Assumptions read_after_write_is_fresh_from.
+(* the hypothesis "visits no stale page" matters: between the rewrite and the invalidation the old bytes come back *)
+Example read_after_write_nontrivial :
+  let fs := fun g => if g =? 1 then Some [1; 2; 3; 4; 5; 6; 7; 8; 9; 10; 11; 12] else None in
+  let ops := [XRead 1 0 12; XWrite 1 3 [40; 50]; XRead 1 0 12; XInvRange 1 3 2; XRead 1 0 12; XRead 1 8 9] in
+  xops_ok fs ops /\
+  snd (x_run (pc_new 4 64 fs) ops) =
+    [XBytes [1; 2; 3; 4; 5; 6; 7; 8; 9; 10; 11; 12]; XUnit; XBytes [1; 2; 3; 4; 5; 6; 7; 8; 9; 10; 11; 12];
+     XUnit; XBytes [1; 2; 3; 40; 50; 6; 7; 8; 9; 10; 11; 12]; XBytes [9; 10; 11; 12]].
+Proof. split; [cbn; repeat split; intros f E; inversion E; cbn; lia|vm_compute; reflexivity]. Qed.
+
+(* ---- if every rewrite is directly followed by an invalidate_range whose range covers the rewritten bytes
+        (equal or larger), every read of the history returns the file's bytes at that moment ---- *)
+Theorem covering_invalidation_history_correct : forall ps capbytes fs ops,
+  0 < ps -> xops_ok fs ops -> disciplined ops ->
+  snd (x_run (pc_new ps capbytes fs) ops) = x_expected fs ops.
+Proof. exact covering_history_proof. Qed.
+Check covering_invalidation_history_correct : forall ps capbytes fs ops,
+  0 < ps -> xops_ok fs ops -> disciplined ops ->
+  snd (x_run (pc_new ps capbytes fs) ops) = x_expected fs ops.
+Print Assumptions covering_invalidation_history_correct.
+Example covering_invalidation_nontrivial :
+  let fs := fun g => if g =? 1 then Some [1; 2; 3; 4; 5; 6; 7; 8; 9; 10; 11; 12] else None in
+  let ops := [XRead 1 0 12; XWrite 1 3 [40; 50]; XInvRange 1 2 5; XReadAhead 1 0 6 4; XClose 1; XRead 1 0 6] in
+  xops_ok fs ops /\ disciplined ops /\
+  x_expected fs ops = [XBytes [1; 2; 3; 4; 5; 6; 7; 8; 9; 10; 11; 12]; XUnit; XUnit; XBytes [1; 2; 3; 40; 50; 6];
+                       XOk true; XBytes []].
+Proof.
+  split; [cbn; repeat split; intros f E; inversion E; cbn; lia|].
+  split; [cbn; repeat split; lia|vm_compute; reflexivity].
+Qed.
+
+(* ---- SingleLruPageCache: its observations and its state are those of the wrapped LruPageCache on the same calls ---- *)
+Theorem single_cache_is_wrapped_cache : forall ops c,
+  somes (map sres_x (snd (single_run c ops))) = snd (x_run c (somes (map sop_x ops))) /\
+  fst (single_run c ops) = fst (x_run c (somes (map sop_x ops))).
+Proof. exact single_is_wrapped_proof. Qed.
+Check single_cache_is_wrapped_cache : forall ops c,
+  somes (map sres_x (snd (single_run c ops))) = snd (x_run c (somes (map sop_x ops))) /\
+  fst (single_run c ops) = fst (x_run c (somes (map sop_x ops))).
+Print Assumptions single_cache_is_wrapped_cache.
+
+(* ---- FileManager::read_page as written (PAGE_SIZE buffer, zero-filled behind the bytes read) followed by the
+        truncation to bytes_read in get_page is "the bytes of the page that exist in the file"; a failed read
+        (virtual file id) leaves an empty page, never PAGE_SIZE zeros ---- *)
+Theorem page_load_is_file_page : forall ps f p,
+  load_page ps (Some f) p = page_of ps f p /\ (0 < ps -> load_page ps None p = []).
+Proof. exact load_page_is_page_of. Qed.
+Check page_load_is_file_page : forall ps f p,
+  load_page ps (Some f) p = page_of ps f p /\ (0 < ps -> load_page ps None p = []).
+Print Assumptions page_load_is_file_page.
